@@ -122,13 +122,13 @@ def random_program(rng, threads, length, maxdepth=3):
         if r < 0.12:
             ops.append({"ev": "Set", "t": t, "m": m, "name": rng.choice(BAD[m]), "loc": rng.random() < 0.5})
         elif r < 0.45:
-            ops.append({"ev": "Set", "t": t, "m": m, "name": rng.choice(names), "loc": rng.random() < 0.5})
+            ops.append({"ev": "Set", "t": t, "m": m, "name": rng.choice(names), "loc": rng.random() < 0.5, "pos": rng.random() < 0.3})
         elif r < 0.50 and len(depth[t]) < maxdepth:
             ops.append({"ev": "Enter", "t": t, "m": m, "name": rng.choice(BAD[m]), "loc": rng.random() < 0.5,
                         "form": rng.choice(["with", "deco"])})
         elif r < 0.75 and len(depth[t]) < maxdepth:
             ops.append({"ev": "Enter", "t": t, "m": m, "name": rng.choice(names), "loc": rng.random() < 0.5,
-                        "form": rng.choice(["with", "deco"])})
+                        "form": rng.choice(["with", "deco"]), "pos": rng.random() < 0.3})
             depth[t].append(m)
         elif depth[t]:
             ops.append({"ev": "Exit", "t": t, "m": depth[t].pop(), "how": rng.choice(["normal", "exception", "base_exception"])})
@@ -245,7 +245,7 @@ def run(chk, opts):
     for rid, clause, _ in rej:
         e = by_id.get(rid, {})
         tr = trace_of.get(e.get("tr"), [])
-        ops = [{k: x[k] for k in ("ev", "t", "m", "name", "loc", "how", "form") if k in x} for x in tr if x["ev"] != "Reset"]
+        ops = [{k: x[k] for k in ("ev", "t", "m", "name", "loc", "how", "form", "pos") if k in x} for x in tr if x["ev"] != "Reset"]
         kind = "free" if str(e.get("tr", "")).startswith("f") else "programs"
         rec = chk.violation(rid, clause, case={"kind": kind, "ops": ops, "threads": 3 if not str(e.get("tr", "")).startswith("g") else 2},
                             event=e)
